@@ -112,13 +112,18 @@ def build_sim_resource(world, prefix="sim://", chained=False, private=False):
 class FakeResponse:
     """What the simulated HTTP server answers: enough of requests.Response for plain and streamed downloads."""
 
-    def __init__(self, url, status_code, content, world=None, drop_after=None, headers=None, gzip_encoded=False):
+    def __init__(self, url, status_code, content, world=None, drop_after=None, headers=None, gzip_encoded=False,
+                 no_length=False):
         self.url = url
         self.status_code = status_code
         self._content = content
         self._world = world
         self._drop_after = drop_after  # number of pieces delivered before the connection breaks
-        self.headers = dict(headers or {})
+        try:
+            from requests.structures import CaseInsensitiveDict as _CID
+        except Exception:  # pragma: no cover
+            _CID = dict
+        self.headers = _CID(headers or {})  # header names are case-insensitive, as in requests
         # what travels on the wire: the body itself, or (a server that compresses on the fly) its gzip form;
         # .content / .iter_content decode it as requests does, .raw hands out the wire bytes undecoded
         wire = content
@@ -126,7 +131,11 @@ class FakeResponse:
             import gzip as _gz
             wire = _gz.compress(content, 6, mtime=0)
             self.headers.setdefault("Content-Encoding", "gzip")
-        self.headers.setdefault("Content-Length", str(len(wire)))
+        if no_length:
+            # a server that streams (Transfer-Encoding: chunked) announces no length
+            self.headers.setdefault("Transfer-Encoding", "chunked")
+        else:
+            self.headers.setdefault("Content-Length", str(len(wire)))
         self.raw = _RawBody(self, wire)
         self.reason = {200: "OK", 206: "Partial Content", 404: "Not Found", 500: "Internal Server Error",
                        503: "Service Unavailable", 410: "Gone", 403: "Forbidden", 401: "Unauthorized",
@@ -249,6 +258,58 @@ class _Api:
     def get(self, url, **kwargs):
         return self._world.http_get(url, **kwargs)
 
+    def head(self, url, **kwargs):
+        # the answer to a GET without its body (no fault is consumed, nothing is logged as a fetch)
+        return self._world.http_head(url, **kwargs)
+
+    def request(self, method, url, **kwargs):
+        m = str(method).upper()
+        if m == "GET":
+            return self.get(url, **kwargs)
+        if m == "HEAD":
+            return self.head(url, **kwargs)
+        raise NotImplementedError("the simulated http server only answers GET and HEAD, not %s" % method)
+
+
+class _Session:
+    """requests.Session as far as a downloader needs it: get/head/request go to the simulated server; adapters,
+    default headers and the context-manager protocol are accepted."""
+
+    def __init__(self, api):
+        self._api = api
+        self.headers = {}
+        self.adapters = {}
+        self.verify = True
+        self.auth = None
+        self.params = {}
+        self.max_redirects = 30
+
+    def _kw(self, kwargs):
+        if self.headers:
+            kwargs = dict(kwargs, headers=dict(self.headers, **(kwargs.get("headers") or {})))
+        return kwargs
+
+    def get(self, url, **kwargs):
+        return self._api.get(url, **self._kw(kwargs))
+
+    def head(self, url, **kwargs):
+        return self._api.head(url, **self._kw(kwargs))
+
+    def request(self, method, url, **kwargs):
+        return self._api.request(method, url, **self._kw(kwargs))
+
+    def mount(self, prefix, adapter):
+        self.adapters[prefix] = adapter
+
+    def close(self):
+        pass
+
+    def __enter__(self):
+        return self
+
+    def __exit__(self, *a):
+        return False
+
 
 class RequestsShim:
     """`requests` as seen by remote_resources: .api.get / .get are simulated, every other attribute is
@@ -259,6 +320,11 @@ class RequestsShim:
         self._rq = _rq
         self.api = _Api(world)
         self.get = self.api.get
+        self.head = self.api.head
+        self.request = self.api.request
+        api = self.api
+        self.Session = lambda: _Session(api)
+        self.session = self.Session
 
     def __getattr__(self, name):
         return getattr(self._rq, name)
